@@ -1994,6 +1994,10 @@ fn is_cgi() -> bool {
     std::env::var_os("REQUEST_METHOD").is_some()
 }
 
+#[cfg(kani)]
+#[path = "/verif/kani/iroh/endpoint.rs"]
+mod verif_kani;
+
 #[cfg(all(test, with_crypto_provider))]
 mod tests {
     use std::{
